@@ -377,6 +377,20 @@ func parinitGen(rng *Rng, par bool, variant int) (parinitIn, []string) {
 			// a file fan: sweep inside Run's computePwmMap, no measurement
 			f.Kind = "file"
 			tags = append(tags, "file-sweep")
+		case 2:
+			// configured pwmMap (sparse): no sweep, but the RPM curve is still measured
+			f.HasMap = true
+			for _, k := range []int{0, 64, 128, 192, 255} {
+				f.Map = append(f.Map, [2]int{k, startupDevApply(f.Dev, k)})
+			}
+			tags = append(tags, "cfgmap-sparse")
+		case 3:
+			// configured pwmMap (dense)
+			f.HasMap = true
+			for k := 0; k <= 255; k++ {
+				f.Map = append(f.Map, [2]int{k, startupDevApply(f.Dev, k)})
+			}
+			tags = append(tags, "cfgmap-dense")
 		default:
 			tags = append(tags, "sweep+measure")
 		}
@@ -388,6 +402,7 @@ func parinitGen(rng *Rng, par bool, variant int) (parinitIn, []string) {
 		f := &in.Fans[0]
 		f.Kind, f.DelayMs = "hwmon", 0
 		in.Db = nil
+		f.HasMap, f.Map = false, nil
 		for i := 1; i < n; i++ {
 			in.Fans[i].DelayMs = rng.Pick([]int{200, 300, 600})
 		}
